@@ -1,2 +1,3 @@
 pub mod core;
+pub mod lab;
 pub mod props;
